@@ -454,4 +454,10 @@ def replay(ctx, jobname, failure):
         rep['detail'] = m.group(1)
         w = re.search(r'class=(\S+)', m.group(1))
         rep['witness_class'] = w.group(1) if w else None
+    if not rep['reproduced'] and jobname.startswith('erase.'):
+        exe2 = native.build([os.path.join(HERE, 'c10_replay_erase_growth.cpp')], os.path.join(ctx.work, 'c10_replay_erase_growth'), link_tbb=True)
+        rc2, out2 = native.run([exe2], timeout=120)
+        m2 = re.search(r'FAIL: (.*)', out2)
+        if rc2 not in (0, 'timeout') and m2:
+            rep.update(reproduced=True, detail='class=erase-misses-key-during-growth ' + m2.group(1)[:300], witness_class='erase-misses-key-during-growth', cmd=exe2, output=out2[-800:])
     return rep
